@@ -5,24 +5,37 @@ import BoltonsVerif.Generated.C12_Consts
 C12 line protocol.  One line = one whole case.
 
   rx <recvsize> <maxsize> <retry:0|1> <script> <op> ...
-       script : `-` | events joined by `,` : `t` (socket.timeout) | <hex> (a chunk)
+       script : `-` | events joined by `,` : `t` (socket.timeout) | `w` (the wall-clock deadline passes:
+                same model event as `t`, see Model.lean) | `e` (the socket raises a transient OSError: the
+                code's catch-all handlers do to the state exactly what the timeout handlers do, so again
+                the same model event; the outcome is printed `oserror` instead of `timeout` - which fault
+                of the script a raised fault belongs to is fixed by `timeout_accounting_exact`) | <hex> (a chunk)
        op     : r<n> recv(n) | p<n> peek(n) | s<n> recv_size(n)
               | u<w:0|1>:<max>:<hexdelim|-> recv_until | c<max> recv_close | m<n> setmaxsize(n)
        max    : U (argument omitted -> constructor maxsize) | N (None -> _RECV_LARGE_MAXSIZE) | <n>
        retry=1: an op that raised Timeout is called again, at most (#t events + 1) attempts in total
      output: one record per attempt, `;`-joined:  <res>/<rbuf hex>
-       res : ok:<hex|-> | closed | toolong | timeout | fuel
+       res : ok:<hex|-> | closed | toolong | timeout | oserror | fuel
+       retry=1 appends ` #<final result of every call, `,`-joined>/<final rbuf>|<number of operations>`
+       computed by `runCalls` / `resolveCalls`
   tx <script> <op> ...
-       script : `-` | `a<k>` (send accepts at most k bytes) | `t`, joined by `,`
+       script : `-` | `a<k>` (send accepts at most k bytes) | `t` | `w` (SEv.clock) | `e` (transient
+                OSError from sock.send: SEv.timeout, printed `oserror`), joined by `,`
        op     : s<hex|-> send / sendall | b<hex|-> buffer | f flush
-     output per op:  <res>/<getsendbuffer hex>/<wire hex> ; res : sent:<n> | none | timeout
-  ns <maxsize> <wscript> <cuts> <nreads> <payloadhex|-> ...
+     output per op:  <res>/<getsendbuffer hex>/<wire hex> ; res : sent:<n> | none | timeout | oserror
+       followed by ` #<faults of the script still unused>` (`nSF` after `srun`)
+  ns <maxsize> <wscript> <cuts> <nreads> <rcfg> <payloadhex|-> ...
+       rcfg : how the reading NetstringSocket is configured: `c<n>` (constructor maxsize) then any number
+              of `s<n>` (setmaxsize) then optionally `a<n>` (read_ns(maxsize=n)), joined by `,`
        every payload is written with write_ns (after a Timeout: flush until done, bounded);
        the wire is cut into chunks of the given sizes (`-` = one chunk; remainder = last chunk)
        and read back with nreads read_ns calls.
      output: W:<per-write results `,`-joined>;<wire hex>;<per-read results `,`-joined>
-  nsr <maxsize> <script> <nreads>       read_ns over an arbitrary script
+  nsr <rcfg> <script> <nreads>          read_ns over an arbitrary script
+  duo <line> | <line>                   two independent sockets (the harness interleaves their calls):
+                                        output `<out> | <out>`
      output: per read `,`-joined <res>/<rbuf hex>
+  int <hex|->                             the model of Python's int(bytes): the value or `err`
   consts                                  the generated constants
 -/
 namespace C12.Driver
@@ -47,26 +60,27 @@ def parseScript? (s : String) : Option (List Ev) :=
     match acc with
     | none => none
     | some l =>
-      if w = "t" then some (.timeout :: l)
+      if w = "t" || w = "w" || w = "e" then some (.timeout :: l)
       else match hexToBytes? w with
         | some bs => if bs.isEmpty then none else some (.chunk (bs.map UInt8.toNat) :: l)
         | none => none) (some [])
 
-def parseMax? (cfg : Cfg) (s : String) : Option Nat :=
-  if s = "U" then some cfg.maxsize
-  else if s = "N" then some Gen.RECV_LARGE_MAXSIZE
-  else s.toNat?
+def parseMax? (s : String) : Option Max :=
+  if s = "U" then some .unset
+  else if s = "N" then some .none
+  else s.toNat?.map Max.some
 
-def parseOp? (cfg : Cfg) (tok : String) : Option Op :=
+def parseCall? (tok : String) : Option Call :=
   let rest := (tok.drop 1).toString
   match tok.front with
-  | 'r' => rest.toNat?.map Op.recv
-  | 'p' => rest.toNat?.map Op.peek
-  | 's' => rest.toNat?.map Op.recvSize
-  | 'c' => (parseMax? cfg rest).map Op.recvClose
+  | 'r' => rest.toNat?.map Call.recv
+  | 'p' => rest.toNat?.map Call.peek
+  | 's' => rest.toNat?.map Call.recvSize
+  | 'm' => rest.toNat?.map Call.setMaxsize
+  | 'c' => (parseMax? rest).map Call.recvClose
   | 'u' => match splitOnChar rest ':' with
     | [w, m, d] =>
-      match parseMax? cfg m, hexToNats? d with
+      match parseMax? m, hexToNats? d with
       | some m, some d => if w = "1" then some (.recvUntil d m true)
                           else if w = "0" then some (.recvUntil d m false) else none
       | _, _ => none
@@ -75,35 +89,64 @@ def parseOp? (cfg : Cfg) (tok : String) : Option Op :=
 
 def nTimeouts (s : List Ev) : Nat := (s.filter (· == .timeout)).length
 
+/-- for every fault token of a script, in order: is it an `e` (OSError) rather than a timeout? -/
+def faultTags (s : String) : List Bool :=
+  (splitOnChar s ',').filterMap fun w =>
+    if w = "e" then some true else if w = "t" || w = "w" then some false else none
+
+/-- a raised fault is the next unconsumed fault of the script (`timeout_accounting_exact`,
+    `send_fault_accounting`) -/
+def showFault (tags : List Bool) : String × List Bool :=
+  match tags with
+  | true :: ts => ("oserror", ts)
+  | _ :: ts => ("timeout", ts)
+  | [] => ("timeout", [])
+
 /-- one op with the harness's retry discipline; emits a record per attempt -/
-def runOp (cfg : Cfg) (op : Op) : Nat → St → List String → St × List String
-  | 0, st, acc => (st, acc)
-  | k + 1, st, acc =>
+def runOp (cfg : Cfg) (op : Op) : Nat → St → List Bool → List String → St × List Bool × List String
+  | 0, st, tags, acc => (st, tags, acc)
+  | k + 1, st, tags, acc =>
     let (r, st') := attempt cfg op st
-    let acc := s!"{showRes r}/{natsToHex st'.rbuf}" :: acc
-    if r = .timeout then runOp cfg op k st' acc else (st', acc)
+    if r = .timeout then
+      let (name, tags') := showFault tags
+      runOp cfg op k st' tags' (s!"{name}/{natsToHex st'.rbuf}" :: acc)
+    else (st', tags, s!"{showRes r}/{natsToHex st'.rbuf}" :: acc)
 
 def handleRx (toks : List String) : String :=
   match toks with
   | rs :: ms :: retry :: script :: ops =>
     match rs.toNat?, ms.toNat?, parseScript? script with
-    | some rs, some ms, some script =>
+    | some rs, some ms, some evs =>
       let cfg : Cfg := ⟨rs, ms⟩
-      let tries := if retry = "1" then nTimeouts script + 1 else 1
-      let rec go (cfg : Cfg) (st : St) (ops : List String) (acc : List String) : Option (List String) :=
+      let tries := if retry = "1" then nTimeouts evs + 1 else 1
+      let rec go (cfg : Cfg) (st : St) (tags : List Bool) (ops : List String) (acc : List String) :
+          Option (List String) :=
         match ops with
         | [] => some acc.reverse
         | t :: ts =>
-          if t.front = 'm' then
-            -- setmaxsize(n): later calls that omit maxsize use n
-            match (t.drop 1).toString.toNat? with
-            | some n => go { cfg with maxsize := n } st ts (s!"none/{natsToHex st.rbuf}" :: acc)
-            | none => none
-          else match parseOp? cfg t with
-          | some op => let (st', acc') := runOp cfg op tries st acc; go cfg st' ts acc'
+          match parseCall? t with
+          | some c =>
+            match c.op Gen.RECV_LARGE_MAXSIZE cfg.maxsize with
+            | some op => let (st', tags', acc') := runOp cfg op tries st tags acc; go cfg st' tags' ts acc'
+            | none =>
+              -- setmaxsize(n): `callAttempt` gives the new configuration, the state is untouched
+              let (_, cfg', st') := callAttempt Gen.RECV_LARGE_MAXSIZE cfg c st
+              go cfg' st' tags ts (s!"none/{natsToHex st'.rbuf}" :: acc)
           | none => none
-      match go cfg ⟨[], script⟩ ops [] with
-      | some outs => if outs.isEmpty then "-" else ";".intercalate outs
+      match go cfg ⟨[], evs⟩ (faultTags script) ops [] with
+      | some outs =>
+        let body := if outs.isEmpty then "-" else ";".intercalate outs
+        if retry = "1" then
+          -- the same session through `runCalls` (every call retried until it no longer times out):
+          -- final results, final rbuf, and how many operations the calls resolve to
+          match ops.foldr (fun t acc => match acc, parseCall? t with
+              | some l, some c => some (c :: l) | _, _ => none) (some []) with
+          | some calls =>
+            let (rs, stf) := runCalls Gen.RECV_LARGE_MAXSIZE cfg calls ⟨[], evs⟩
+            let nops := (resolveCalls Gen.RECV_LARGE_MAXSIZE cfg.maxsize calls).length
+            s!"{body} #{",".intercalate (rs.map showRes)}/{natsToHex stf.rbuf}|{nops}"
+          | none => "bad-op"
+        else body
       | none => "bad-op"
     | _, _, _ => "bad-op"
   | _ => "bad-op"
@@ -114,7 +157,8 @@ def parseSScript? (s : String) : Option (List SEv) :=
     match acc with
     | none => none
     | some l =>
-      if w = "t" then some (.timeout :: l)
+      if w = "t" || w = "e" then some (.timeout :: l)
+      else if w = "w" then some (.clock :: l)
       else if w.front = 'a' then (w.drop 1).toString.toNat?.map fun k => .accept k :: l
       else none) (some [])
 
@@ -135,17 +179,21 @@ def handleTx (toks : List String) : String :=
   match toks with
   | script :: ops =>
     match parseSScript? script with
-    | some script =>
-      let rec go (st : SSt) (ops : List String) (acc : List String) : Option (List String) :=
+    | some evs =>
+      let rec go (st : SSt) (tags : List Bool) (ops : List String) (acc : List String) : Option (List String) :=
         match ops with
         | [] => some acc.reverse
         | t :: ts => match parseSOp? t with
           | some op =>
             let (r, st') := sstep op st
-            go st' ts (s!"{showSRes r}/{natsToHex st'.getsendbuffer}/{natsToHex st'.wire}" :: acc)
+            let (name, tags') := if r = .timeout then showFault tags else (showSRes r, tags)
+            go st' tags' ts (s!"{name}/{natsToHex st'.getsendbuffer}/{natsToHex st'.wire}" :: acc)
           | none => none
-      match go ⟨[], [], script⟩ ops [] with
-      | some outs => if outs.isEmpty then "-" else ";".intercalate outs
+      match go ⟨[], [], evs⟩ (faultTags script) ops [] with
+      | some outs =>
+        -- faults of the script not used up by the whole history
+        let left := nSF (srun (ops.filterMap parseSOp?) ⟨[], [], evs⟩).2.script
+        s!"{if outs.isEmpty then "-" else ";".intercalate outs} #{left}"
       | none => "bad-op"
     | none => "bad-op"
   | _ => "bad-op"
@@ -170,7 +218,28 @@ def flushUntil : Nat → SSt → String → SSt × String
     | (.timeout, st') => flushUntil k st' (acc ++ "+timeout")
     | (_, st') => (st', acc ++ "+flushed")
 
-def nSTimeouts (s : List SEv) : Nat := (s.filter (· == .timeout)).length
+def nSTimeouts (s : List SEv) : Nat := (s.filter (fun e => e == .timeout || e == .clock)).length
+
+/-- `c<n>[,s<n>]*[,a<n>]`: constructor, setmaxsize calls, optional read_ns argument -/
+def parseRcfg? (s : String) : Option (NsSock × Option Nat) :=
+  match splitOnChar s ',' with
+  | [] => none
+  | c :: rest =>
+    if c.front ≠ 'c' then none else
+    match (c.drop 1).toString.toNat? with
+    | none => none
+    | some c0 =>
+      rest.foldl (fun acc w =>
+        match acc with
+        | none => none
+        | some (ns, arg) =>
+          match (w.drop 1).toString.toNat? with
+          | none => none
+          | some n =>
+            if arg.isSome then none                       -- the argument comes last
+            else if w.front = 's' then some (ns.setMaxsize n, none)
+            else if w.front = 'a' then some (ns, some n)
+            else none) (some (NsSock.init c0, none))
 
 def cutChunks : List Nat → Bytes → List Ev
   | _, [] => []
@@ -179,11 +248,11 @@ def cutChunks : List Nat → Bytes → List Ev
 
 def handleNs (toks : List String) : String :=
   match toks with
-  | ms :: wscript :: cuts :: nreads :: payloads =>
-    match ms.toNat?, parseSScript? wscript, natList? cuts, nreads.toNat?,
+  | ms :: wscript :: cuts :: nreads :: rcfg :: payloads =>
+    match ms.toNat?, parseSScript? wscript, natList? cuts, nreads.toNat?, parseRcfg? rcfg,
           payloads.foldr (fun p acc => match acc, hexToNats? p with
             | some l, some b => some (b :: l) | _, _ => none) (some []) with
-    | some ms, some wscript, some cuts, some nreads, some payloads =>
+    | some ms, some wscript, some cuts, some nreads, some (ns, arg), some payloads =>
       let bound := nSTimeouts wscript + 1
       let (wst, wouts) := payloads.foldl (fun (acc : SSt × List String) p =>
         match writeNs ms p acc.1 with
@@ -192,32 +261,53 @@ def handleNs (toks : List String) : String :=
         | (.timeout, st') => let (st'', s) := flushUntil bound st' "timeout"; (st'', s :: acc.2))
         (⟨[], [], wscript⟩, [])
       let script := cutChunks cuts wst.wire
-      let (rres, _) := readNsMany nsCfg ms nreads ⟨[], script⟩
+      let (rres, _) := NsSock.readNsMany nsCfg ns arg nreads ⟨[], script⟩
       s!"W:{",".intercalate wouts.reverse};{natsToHex wst.wire};{",".intercalate (rres.map showNsRes)}"
-    | _, _, _, _, _ => "bad-op"
+    | _, _, _, _, _, _ => "bad-op"
   | _ => "bad-op"
 
 def handleNsr (toks : List String) : String :=
   match toks with
-  | [ms, script, nreads] =>
-    match ms.toNat?, parseScript? script, nreads.toNat? with
-    | some ms, some script, some nreads =>
+  | [rcfg, script, nreads] =>
+    match parseRcfg? rcfg, parseScript? script, nreads.toNat? with
+    | some (ns, arg), some script, some nreads =>
       let rec go : Nat → St → List String → List String
         | 0, _, acc => acc.reverse
         | k + 1, st, acc =>
-          let (r, st') := readNs nsCfg ms st
+          let (r, st') := ns.readNs nsCfg arg st
           go k st' (s!"{showNsRes r}/{natsToHex st'.rbuf}" :: acc)
       let outs := go nreads ⟨[], script⟩ []
       if outs.isEmpty then "-" else ",".intercalate outs
     | _, _, _ => "bad-op"
   | _ => "bad-op"
 
-def handle (line : String) : String :=
-  match words line with
+def handle1 (toks : List String) : String :=
+  match toks with
   | "rx" :: toks => handleRx toks
   | "tx" :: toks => handleTx toks
   | "ns" :: toks => handleNs toks
   | "nsr" :: toks => handleNsr toks
+  | _ => "bad-op"
+
+def handle (line : String) : String :=
+  match words line with
+  | "duo" :: toks =>
+    let a := toks.takeWhile (· ≠ "|")
+    let b := (toks.dropWhile (· ≠ "|")).drop 1
+    let ra := handle1 a
+    let rb := handle1 b
+    if ra = "bad-op" || rb = "bad-op" then "bad-op" else s!"{ra} | {rb}"
+  | "rx" :: toks => handleRx toks
+  | "tx" :: toks => handleTx toks
+  | "ns" :: toks => handleNs toks
+  | "nsr" :: toks => handleNsr toks
+  | ["int", h] =>
+    -- Python's int() on a bytes object, as modelled: `err` = ValueError
+    match hexToNats? h with
+    | some bs => match parsePyInt bs with
+      | some v => s!"{v}"
+      | none => "err"
+    | none => "bad-op"
   | ["consts"] => s!"DEFAULT_MAXSIZE={Gen.DEFAULT_MAXSIZE} RECV_LARGE_MAXSIZE={Gen.RECV_LARGE_MAXSIZE}"
   | _ => "bad-op"
 
